@@ -3,7 +3,7 @@ From PV Require Import Base.Prelude Base.ListX Base.PySlice Base.Hex Model.HexSe
   Model.MapSec Model.Sfx Model.Music Model.PngStego Generated.K_gfx Generated.K_gff Generated.K_map
   Generated.K_p8png Spec.P8Format
   Proofs.HexSectionProofs Proofs.RowLemmas Proofs.GfxProofs Proofs.MusicProofs Proofs.SfxProofs Proofs.SfxLines
-  Proofs.PngProofs.
+  Proofs.PngProofs Proofs.LoopPins.
 From Coq Require Import ZifyBool.
 
 Lemma gfx_section k d : length d = (k * 64)%nat -> Forall byte d ->
